@@ -17,6 +17,7 @@ package common
 //@   loop 1 invariant found ==> forall k int :: 0 <= k && k <= rangeindex && scontains(sequence, stops[k]) ==> first <= sindex(sequence, stops[k])
 
 //@ func ContainsStopSuffix
+//@   modifies nothing
 //@   ensures result <==> exists k int, i int :: 0 <= k && k < len(stops) && 1 <= i && i <= len(stops[k]) && shassuffix(sequence, stops[k][0:i])
 //@   loop 1 invariant forall k int, j int :: 0 <= k && k <= rangeindex && 1 <= j && j <= len(stops[k]) ==> !shassuffix(sequence, stops[k][0:j])
 //@   loop 2 invariant 1 <= i && forall j int :: 1 <= j && j < i ==> !shassuffix(sequence, stop[0:j])
@@ -27,6 +28,7 @@ package common
 //@ spec func u8lead4(c int) bool = 240 <= c && c < 248
 
 //@ func IncompleteUnicode
+//@   modifies nothing
 //@   ensures result <==> (len(token) >= 1 && (u8lead2(token[len(token)-1]) || u8lead3(token[len(token)-1]) || u8lead4(token[len(token)-1])))
 //@                    || (len(token) >= 2 && u8cont(token[len(token)-1]) && (u8lead3(token[len(token)-2]) || u8lead4(token[len(token)-2])))
 //@                    || (len(token) >= 3 && u8cont(token[len(token)-1]) && u8cont(token[len(token)-2]) && u8lead4(token[len(token)-3]))
